@@ -58,7 +58,7 @@ def monitor(impl_text, obs_text):
         moved = [k for k in range(len(cells)) if cells[k].endswith("!")]
         if ca > n:
             bad.append((cid, "more-destination-cells-changed-than-viewed", "%d > %d" % (ca, n)))
-        if what == "move":
+        if what == "move" or what.startswith("marr_"):
             if len(moved) != n or any(k not in regions["B"] for k in moved):
                 bad.append((cid, "moved-from-cells-are-not-exactly-the-source-view", "%d moved, %d viewed" % (len(moved), n)))
         else:
